@@ -18,8 +18,8 @@ VERIF = os.path.dirname(os.path.dirname(os.path.abspath(__file__)))
 sys.path.insert(0, os.path.join(VERIF, "vbuild"))
 import build  # noqa: E402
 
-REPLAYS = os.path.join(VERIF, "replays")
-EVIDENCE = os.path.join(VERIF, "evidence")
+REPLAYS = os.environ.get("VERIF_REPLAY_DIR", os.path.join(VERIF, "replays"))
+EVIDENCE = os.environ.get("VERIF_EVIDENCE_DIR", os.path.join(VERIF, "evidence"))
 KNOWN = os.path.join(VERIF, "known_findings.json")
 WORK = os.path.join(build.BUILD, "work")
 
@@ -199,7 +199,7 @@ def e1_replay_cmd(binary, rec, wd, log=False):
     return cmd
 
 
-def e1_try(binary, rec, wd, timeout=60):
+def e1_try(binary, rec, wd, timeout=20):
     """Re-run one recorded execution in a fresh process.  Returns the failure class or None."""
     rc, out, err = run_proc(e1_replay_cmd(binary, rec, wd), timeout)
     if rc is None:
@@ -244,7 +244,7 @@ def ddmin(items, test, budget=400):
 def e1_minimise(binary, rec, wd, nops=16, budget=300):
     """Shrink scenario ops (via drop list) and the decision list while the same class persists."""
     cls = rec["class"]
-    t_end = time.time() + 120
+    t_end = time.time() + 60
 
     def holds(r):
         if time.time() > t_end:
